@@ -55,6 +55,8 @@ var govContracts = []govContract{
 		{"min_authorizers", "ZCNSConfig.MinAuthorizers", "int", []string{"1", "2"}, []string{"one", "1.5"}},
 		{"max_fee", "ZCNSConfig.MaxFee", "coin", []string{"100", "40"}, []string{"free"}},
 		{"max_delegates", "ZCNSConfig.MaxDelegates", "int", []string{"10", "5"}, []string{"ten"}},
+		// the shipped min_stake is 0, which GlobalNode.Validate refuses: no update passes until a valid value is set once
+		{"min_stake", "ZCNSConfig.MinStakeAmount", "zcn", []string{"1", "2", "0.5"}, []string{"stake", "-1"}},
 	}},
 }
 
